@@ -21,6 +21,9 @@ __attribute__((optnone, noinline)) static void step_ch(OPN2_MIDIPlayer *dev, uns
     // concrete enumeration (an assume would not stop symbolic execution from exploring the other cases)
     sel = SEL_LO + (sel % (SEL_HI - SEL_LO + 1));
 #endif
+#ifdef NO_PANIC
+    if(sel == 11) sel = 12;   // opn2_panic (16 x 128 note-offs) has its own obligation
+#endif
     switch(sel)
     {
     case 0:
